@@ -584,4 +584,76 @@ theorem GoodIn.mono {C D : Model → Valuation → Prop} (hCD : ∀ M ρ, D M ρ
     (h : GoodIn C th) : GoodIn D th :=
   ⟨h.wt, h.sig, fun M ρ hρ hd hh => h.valid M ρ hρ (hCD M ρ hd) hh⟩
 
+/-! ### the `theorem` rule: citing theorems that are good for the class -/
+
+def ArgAx.sigOK : ArgAx → Bool
+  | .prim a => a.sigOK
+  | .name _ => true
+
+/-- One checker step that may cite a stored theorem: if every stored theorem is good for the
+closed class, so is every accepted result. -/
+theorem checkStepAx_sound_in (hcl : ClosedClass C) (axs : List (String × Thm))
+    (hax : ∀ p ∈ axs, GoodIn C p.2) (rule : String) (arg : ArgAx) (prems : List Thm) (th : Thm)
+    (hp : ∀ p ∈ prems, GoodIn C p) (ha : arg.sigOK = true)
+    (h : checkStepAx axs rule arg prems = .ok th) : GoodIn C th := by
+  unfold checkStepAx at h
+  split at h
+  · split at h
+    · rename_i s
+      split at h
+      · rename_i th0 hl
+        split at h
+        · cases h
+          exact hax (s, th) (mem_of_lookup_eq_some axs s th hl)
+        · cases h
+      · cases h
+    · cases h
+  · split at h
+    · rename_i a
+      exact prim_sound_in hcl rule a prems th hp ha h
+    · cases h
+
+theorem runScriptAx_sound_in (hcl : ClosedClass C) (axs : List (String × Thm))
+    (hax : ∀ p ∈ axs, GoodIn C p.2) (steps : List StepAx) (acc res : List Thm)
+    (hacc : ∀ th ∈ acc, GoodIn C th) (hs : ∀ s ∈ steps, s.arg.sigOK = true)
+    (h : runScriptAx axs steps acc = .ok res) : ∀ th ∈ res, GoodIn C th := by
+  induction steps generalizing acc with
+  | nil =>
+    simp only [runScriptAx] at h
+    cases h
+    exact hacc
+  | cons s rest ih =>
+    have hext : ∀ th, GoodIn C th → ∀ th' ∈ acc ++ [th], GoodIn C th' := by
+      intro th hg th' hth'
+      rcases List.mem_append.1 hth' with h1 | h1
+      · exact hacc th' h1
+      · simp at h1; subst h1; exact hg
+    have hrest : ∀ s' ∈ rest, s'.arg.sigOK = true := fun s' hs' => hs s' (by simp [hs'])
+    simp only [runScriptAx] at h
+    split at h
+    · cases hc : checkStepAx axs s.rule s.arg [] with
+      | error e => rw [hc] at h; cases h
+      | ok th =>
+        rw [hc] at h
+        simp only at h
+        have hg : GoodIn C th :=
+          checkStepAx_sound_in hcl axs hax s.rule s.arg [] th (fun _ hm => by cases hm)
+            (hs s (by simp)) hc
+        exact ih (acc ++ [th]) (hext th hg) hrest h
+    · cases hm : lookupPrems acc s.prevs with
+      | error e => rw [hm] at h; cases h
+      | ok prems =>
+        rw [hm] at h
+        simp only at h
+        cases hc : checkStepAx axs s.rule s.arg prems with
+        | error e => rw [hc] at h; cases h
+        | ok th =>
+          rw [hc] at h
+          simp only at h
+          have hprems : ∀ p ∈ prems, GoodIn C p :=
+            fun p hpm => hacc p (lookupPrems_mem_acc acc s.prevs prems hm p hpm)
+          have hg : GoodIn C th :=
+            checkStepAx_sound_in hcl axs hax s.rule s.arg prems th hprems (hs s (by simp)) hc
+          exact ih (acc ++ [th]) (hext th hg) hrest h
+
 end Holpy
